@@ -367,15 +367,20 @@ fn check_composition(r: &Map, o: &Map, t: &Map) -> Result<(usize, usize, usize),
     for x in &tsorted {
         positions.insert((x.gl, x.gc));
     }
+    // every token position, and the position one column to its right (inside the segment): a range
+    // token resolves the two differently, an ordinary one identically
+    let inside: Vec<(u32, u32)> = positions.iter().map(|(l, c)| (*l, *c + 1)).filter(|p| !positions.contains(p)).collect();
+    let all_positions: Vec<(u32, u32)> = positions.iter().cloned().chain(inside.into_iter()).collect();
     let (mut with_o, mut without_o) = (0usize, 0usize);
-    for (l, c) in positions {
+    for (l, c) in all_positions {
         let rt = match Map::glb(&rsorted, l, c) {
             Some(rt) if rt.src.is_some() => rt,
             _ => continue,
         };
-        let ot = match Map::glb(&osorted, rt.sl, rt.sc) {
-            Some(ot) if ot.src.is_some() => ot,
+        let (ot, osc) = match Map::resolve(&osorted, rt.sl, rt.sc) {
+            Some((ot, osc)) if ot.src.is_some() => (ot, osc),
             other => {
+                let other = other.map(|x| x.0);
                 without_o += 1;
                 // the composition yields nothing here: the chained map may not have a sourced token of
                 // its own at this very position (what a *lookup* falls back to is not constrained)
@@ -391,23 +396,29 @@ fn check_composition(r: &Map, o: &Map, t: &Map) -> Result<(usize, usize, usize),
                 continue;
             }
         };
+        // a lookup that falls back across lines onto a *range* token has no agreed meaning (the library
+        // applies the column offset of another line, wrapping below zero): no expectation there
+        if ot.range && ot.gl != rt.sl {
+            without_o += 1;
+            continue;
+        }
         with_o += 1;
         let esrc = ot.src.and_then(|s| o.source_name(s)).unwrap_or_default();
         let ename = ot.name.and_then(|n| o.names.get(n as usize).cloned());
-        match Map::glb(&tsorted, l, c) {
+        match Map::resolve(&tsorted, l, c) {
             None => {
                 return Err(format!(
                     "generated {l}:{c} resolves to nothing in the chained map but to {esrc}:{}:{} (rewrite map -> {}:{} -> original map)",
-                    ot.sl, ot.sc, rt.sl, rt.sc
+                    ot.sl, osc, rt.sl, rt.sc
                 ))
             }
-            Some(a) => {
+            Some((a, asc)) => {
                 let asrc = a.src.and_then(|s| t.source_name(s)).unwrap_or_default();
                 let aname = a.name.and_then(|n| t.names.get(n as usize).cloned());
-                if asrc != esrc || a.sl != ot.sl || a.sc != ot.sc || aname != ename {
+                if asrc != esrc || a.sl != ot.sl || asc != osc || aname != ename {
                     return Err(format!(
                         "generated {l}:{c} resolves to {asrc}:{}:{} name={aname:?} in the chained map but composing rewrite map ({}:{}) and original map gives {esrc}:{}:{} name={ename:?}",
-                        a.sl, a.sc, rt.sl, rt.sc, ot.sl, ot.sc
+                        a.sl, asc, rt.sl, rt.sc, ot.sl, osc
                     ));
                 }
             }
